@@ -5,7 +5,8 @@ record per certificate for spec/TraceCertChain.tla.
 
 A *plan* is the JSON-serialisable recipe of one certificate (also the replay artefact):
     {"seed": int, "targets": [...],
-     "elements": [{"name", "signed_by", "signer"?, "tweak": bool, "compressed": bool, "leafmsg": int}],
+     "elements": [{"name", "signed_by", "signer"?, "tweak": bool, "compressed": bool, "leafmsg": int,
+                   "shape": one of certv1.SHAPES}],
      "corrs": [[kind, where, opt], ...], "src": "...", "desc": {...}}
 """
 import json
@@ -31,13 +32,14 @@ def _dict(x):
     return x if isinstance(x, dict) else {}
 
 
-def plans_from_behaviour(b, rng, positions=("rand",)):
+def plans_from_behaviour(b, rng, positions=("rand",), expand_shapes=True):
     """Concretise one behaviour of GenCertChain.  What the model decided is honoured exactly; what
     it left open (elements / links never read) is filled with seeded random content, corrupted or
     not.  Returns one plan per requested flip position class when the behaviour contains a
     bit-flip corruption, else a single plan."""
     by = _dict(b["by"])
     link = _dict(b["link"])
+    shapes = _dict(b.get("shape"))       # decided for elements whose key was read (certifiers)
     swap = list(b["swap"]) if b["swap"] else []
     partner = swap[1] if swap else None
     present = {n: p for n, p in by.items() if n != "ghost" and p != "absent"}
@@ -56,7 +58,7 @@ def plans_from_behaviour(b, rng, positions=("rand",)):
         p = present[n]
         l = link.get(n)
         e = {"name": n, "signed_by": rng.choice(GHOSTS) if p == "ghost" else p,
-             "compressed": rng.random() < 0.4, "leafmsg": 0}
+             "compressed": False, "leafmsg": 0, "shape": "canon"}
         corr = "ok"
         if l is not None:
             if l["signer"] != p:
@@ -70,7 +72,16 @@ def plans_from_behaviour(b, rng, positions=("rand",)):
                 if k == "tweak_any":
                     k = "tweak_flip" if e["tweak"] else "tweak_add"
                 corrs.append([k, idx[n], {}])
-        if n in ("ui", "signer") and n not in certifies and n not in signers \
+        if n in shapes:
+            e["shape"] = shapes[n]
+        elif b.get("shapeson", True) and corr not in ("keySubst", "msgFlipOther", "msgFlipKey") \
+                and rng.random() < 0.4:
+            # its key is never read by the model's program: any shape will do (a target still has to
+            # report its whole value).  In a configuration without shapes every message is canonical.
+            e["shape"] = rng.choice(certv1.SHAPES)
+        if e["shape"] == "canon":
+            e["compressed"] = rng.random() < 0.4
+        if n in ("ui", "signer") and n not in certifies and n not in signers and e["shape"] == "canon" \
                 and corr != "keySubst" and rng.random() < 0.5:
             e["leafmsg"] = rng.choice([1, 32, 33, 65, 66, rng.randrange(1, 160)])
         if corr in CORR_OP:
@@ -88,6 +99,15 @@ def plans_from_behaviour(b, rng, positions=("rand",)):
         cs = [[k, w, dict(o, at=at) if (k in FLIPS and at != "rand") else dict(o)] for k, w, o in corrs]
         plans.append({"seed": rng.randrange(1 << 62), "targets": targets, "elements": elements,
                       "corrs": cs, "src": "model-behaviour"})
+    # "longHead", "short" and "sliced" are one abstract class (the whole value is not a key, for every
+    # element name): where the model decided one of them, the two others are run as well
+    same = ("longHead", "short", "sliced")
+    if expand_shapes and any(e["shape"] in same and e["name"] in shapes for e in elements):
+        for k in (1, 2):
+            els = [dict(e, shape=same[(same.index(e["shape"]) + k) % 3])
+                   if (e["shape"] in same and e["name"] in shapes) else e for e in elements]
+            plans.append({"seed": rng.randrange(1 << 62), "targets": targets, "elements": els,
+                          "corrs": [[k2, w, dict(o)] for k2, w, o in plans[0]["corrs"]], "src": "model-behaviour"})
     return plans
 
 
@@ -103,7 +123,8 @@ def random_plan(rng):
         else:
             p = rng.choice(list(NAMES) + ["root", rng.choice(GHOSTS)])
         elements.append({"name": n, "signed_by": p, "tweak": rng.random() < 0.5,
-                         "compressed": rng.random() < 0.4, "leafmsg": 0})
+                         "compressed": rng.random() < 0.4, "leafmsg": 0,
+                         "shape": "canon" if rng.random() < 0.7 else rng.choice(certv1.SHAPES)})
     order = list(range(k))
     rng.shuffle(order)
     elements = [elements[i] for i in order]
@@ -166,7 +187,8 @@ def build_plan(plan):
         rng = random.Random(plan["seed"])
         els = []
         for e in plan["elements"]:
-            it = {"name": e["name"], "signed_by": e["signed_by"], "compressed": e.get("compressed", False)}
+            it = {"name": e["name"], "signed_by": e["signed_by"], "compressed": e.get("compressed", False),
+                  "shape": e.get("shape", "canon")}
             if "signer" in e:
                 it["signer"] = e["signer"]
             if e.get("tweak"):
